@@ -108,6 +108,12 @@ class Wn(NativeModel):
 
     get_link = get_node
 
+    def add_curve(self, name=None, curve_type=None, xy_tuples_list=None):
+        self.created.append(("curve", name, dict(curve_type=curve_type, points=xy_tuples_list), None))
+
+    def add_pattern(self, name=None, pattern=None):
+        self.created.append(("pattern", name, dict(multipliers=pattern), None))
+
 
 class _Reg(NativeModel):
     def remove_usage(self, *a):
@@ -235,7 +241,74 @@ def _roundtrip(tier, seed):
                       "and example networks x {from_dict(to_dict), read_json(write_json), append to an empty model}: to_dict equal after JSON normalisation")
 
 
-CONTRACTS = [Contract("wntr.network.io:from_dict", P, _cases, models=_models,
+def _demand_list_case(n):
+    """a junction with n demand entries (base value, pattern, category all symbolic; categories / patterns present or None in a
+    mixed arrangement): the first entry feeds add_junction, every later entry one add_demand call with its own three values, in order"""
+    def build(cx):
+        real = _keys("J")
+        d = {k: copy.deepcopy(v) for k, v in real.items()}
+        entries = []
+        for i in range(n):
+            entries.append(dict(base_val=cx.real("base%d" % i), pattern_name=(cx.name("pattern%d" % i) if i % 2 == 0 else None),
+                                category=(cx.name("category%d" % i) if i in (0, 2) else None)))
+        d["demand_timeseries_list"] = [dict(e) for e in entries]
+        wn = Wn()
+        calls = []
+        cx.interp.models.register(EL.Junction.add_demand, lambda interp, args, kw: calls.append(tuple(args[1:]) + tuple(kw.values())),
+                                  verified_by="Junction.add_demand appends Demands entry (base, pattern, category) (C20 demand contracts)")
+        cx.target(IO.from_dict, {"nodes": [d]}, wn)
+
+        def same(a, b):
+            if a is None or b is None:
+                return a is None and b is None
+            if isinstance(a, SV) and isinstance(b, SV):
+                return bool(a.t.eq(b.t))
+            return a == b
+
+        def post(out):
+            if not out.returned:
+                return []
+            ok_created = len(wn.created) == 1
+            posts = [("one_junction_created", ok_created)]
+            if not ok_created:
+                return posts
+            kw = wn.created[0][2]
+            posts.append(("first_entry_feeds_the_junction_s_own_demand", same(kw.get("base_demand"), entries[0]["base_val"]) and
+                          same(kw.get("demand_pattern"), entries[0]["pattern_name"]) and same(kw.get("demand_category"), entries[0]["category"])))
+            posts.append(("one_add_demand_call_per_later_entry", len(calls) == n - 1))
+            for i, c in enumerate(calls[:n - 1]):
+                e = entries[i + 1]
+                posts.append(("entry_%d_restored_with_its_own_base_value_pattern_and_category" % (i + 1),
+                              len(c) == 3 and same(c[0], e["base_val"]) and same(c[1], e["pattern_name"]) and same(c[2], e["category"])))
+            return posts
+        cx.ensure(post)
+    return Case("junction_with_%d_demand_entries" % n, build, crosscheck=False)
+
+
+def _curves_patterns_case():
+    """curves keep their points in the order given (also a curve that is not sorted by x), patterns their multipliers"""
+    def build(cx):
+        pts = [[3.0, 1.0], [1.0, 2.0], [2.0, 0.5]]
+        mult = [1.0, 0.5, 2.0, 0.5]
+        d = dict(curves=[dict(name="c", curve_type="HEAD", points=[list(p_) for p_ in pts]), dict(name="u", curve_type=None, points=[[0.0, 0.0]])],
+                 patterns=[dict(name="p", multipliers=list(mult))])
+        wn = Wn()
+        cx.target(IO.from_dict, d, wn)
+
+        def post(out):
+            if not out.returned:
+                return []
+            cur = [c for c in wn.created if c[0] == "curve"]
+            pat = [c for c in wn.created if c[0] == "pattern"]
+            norm = lambda ps: [[float(a), float(b)] for a, b in ps]
+            return [("every_curve_and_pattern_created_once", [c[1] for c in cur] == ["c", "u"] and [c[1] for c in pat] == ["p"]),
+                    ("curve_type_and_points_kept_in_their_order", len(cur) == 2 and cur[0][2]["curve_type"] == "HEAD" and norm(cur[0][2]["points"]) == pts and cur[1][2]["curve_type"] is None),
+                    ("pattern_multipliers_kept", len(pat) == 1 and list(pat[0][2]["multipliers"]) == mult)]
+        cx.ensure(post)
+    return Case("curves_and_patterns", build, crosscheck=False)
+
+
+CONTRACTS = [Contract("wntr.network.io:from_dict", P, _cases + [_curves_patterns_case(), _demand_list_case(1), _demand_list_case(3), _demand_list_case(4)], models=_models,
                       trusted=["WaterNetworkModel.add_junction/add_tank/add_reservoir/add_pipe/add_pump/add_valve store each parameter in the attribute of the same meaning (C14)",
                                "Node.to_dict / Link.to_dict are reflective: the key set is computed by running them on real instances"])]
 BOUNDED = [Bounded("C13.round_trip", P, _roundtrip, kind="enumerated models, run-time contract")]
